@@ -105,6 +105,41 @@ PROPS['C07'] = {
         'input variety is workload inside a fixed envelope, not the deciding dimension'],
 }
 
+_CAMX_RULE = ('one run = 1-4 write cycles in one process over the CAMx binary '
+              'formats (gridded with every NAME variant, boundary, temperature, '
+              'wind, height/pressure, humidity, vertical diffusivity, generic '
+              '3-D): an in-memory CAMx-convention source is built inside the '
+              'fixed envelope (1-4 species with names up to 10 characters, nx, '
+              'ny 1-5, nz 1-3, 1-4 hourly steps from dates 1970-2069 incl. day, '
+              'year, leap-day and century roll-overs, float32 payload with '
+              'denormals, -0 and extremes), written by the library writer; the '
+              'durable image at the instant the writer returns is copied, a '
+              'handle schedule applied (retain/close/close twice/drop/'
+              'drop+collect), then ack image, post-schedule file and final '
+              'file are judged; the re-read file is re-written after clock '
+              'jumps, collections and unrelated writes and compared byte for '
+              'byte; the reference-encoded twin is read by the library. '
+              'distinct = abstracted trace of (op, format, schedule, image, '
+              'lifecycle vector); non-trivial = a handle-schedule step lies '
+              'between write and a judged image')
+PROPS['C08'] = {
+    'harness': 'ack_camx', 'level': 'exploration',
+    'runs': {'quick': 2800, 'thorough': 80000},
+    'cpu_s': 300, 'wall_s': 900, 'rule': _CAMX_RULE,
+    'components': {'real': REAL, 'stub': ['crash = byte copy of the file at acknowledgement',
+                                          'wall clock', 'GC trigger',
+                                          'peer program: reference CAMx codec']},
+    'assumptions': [
+        'a byte copy of a local file equals what survives a process kill at that instant',
+        'sources carry ETFLAG like files presented by the readers; land-use and cloud/rain are not covered yet',
+        'input variety is workload inside a fixed envelope, not the deciding dimension'],
+}
+PROPS['C09'] = dict(PROPS['C08'])
+PROPS['C09']['assumptions'] = [
+    'the reference codec is written from the CAMx User\'s Guide record lists and validated byte-for-byte (decode, re-encode) against the seven sample files of the repository',
+    'meteorological files carry the time of day as HHMM',
+    'same runs and schedule space as C08; the simulator decides which image is judged (the one at acknowledgement), the differential oracle decides the rest']
+
 MANIFEST_TEXT = {
     'C05': {
         'text': ('Seeded search over schedules: thousands of simulated runs, '
@@ -190,6 +225,40 @@ MANIFEST_TEXT['C07'] = {
     'technique': 'deterministic simulation: crash-at-acknowledgement image + handle lifecycle schedule, reopened file compared with the in-memory source',
 }
 
+MANIFEST_TEXT['C08'] = {
+    'text': ('Seeded search over write/read/re-write cycles of every CAMx '
+             'binary format with a working writer, judged at the durable image '
+             'the writer leaves at the instant it returns (all writers return '
+             'an open, partly buffered handle), after each handle schedule '
+             '(retain, close, close twice, drop, drop+collect) and at the end '
+             'of the process; the re-read file is re-written after clock '
+             'jumps, collections and unrelated writes and must be byte '
+             'identical. Inputs (species, grids, dates incl. roll-overs, '
+             'special float32 values) are workload inside a fixed envelope. '
+             'Evidence, not proof.'),
+    'design_ref': 'DESIGN.md section 5 (C08)',
+    'note': ('Trusted: scenario-built in-memory sources, byte copy = crash '
+             'image. Land-use and cloud/rain formats are not covered. One '
+             'recorded known finding (wind on a one-cell grid).'),
+    'technique': 'deterministic simulation: crash-at-acknowledgement image + handle schedule + history between write and re-write; round-trip and byte-identity oracles',
+}
+MANIFEST_TEXT['C09'] = {
+    'text': ('Differential check against a stub peer on the far side of the '
+             'disk: every durable image a library writer leaves (at '
+             'acknowledgement, after the handle schedule, at process end) is '
+             'walked by an independent Fortran-record walker (markers agree '
+             'and tile the file) and decoded by a reference codec written '
+             'from the CAMx User\'s Guide; conversely the reference-encoded '
+             'twin of every generated file is read by the library reader. '
+             'Shares C08\'s runs; the simulator contributes which image is '
+             'judged and the peer, the differential oracle decides the rest.'),
+    'design_ref': 'DESIGN.md section 5 (C09)',
+    'note': ('Trusted: the reference codec (validated byte-for-byte against '
+             'the 7 sample files). bpch, land-use, cloud/rain and point-source '
+             'formats are not covered.'),
+    'technique': 'deterministic simulation: crash-at-acknowledgement images judged by an independent reference codec (stub peer), both directions',
+}
+
 NOT_APPLICABLE = {
     'C01': 'pure function of (file, operation sequence): no clock, handle, finaliser, registry or disk state enters any conjunct, so there is no schedule or fault to sample',
     'C02': 'hyperslab selection is a pure function of arrays and selectors; nothing for a simulator to schedule or fault',
@@ -206,8 +275,6 @@ NOT_APPLICABLE = {
 
 # claimed by DESIGN.md but whose check is not built/registered yet
 PENDING = {
-    'C08': 'planned (DESIGN.md section 5): check not registered yet',
-    'C09': 'planned (DESIGN.md section 5): check not registered yet',
     'C13': 'planned (DESIGN.md section 5, access-schedule over hidden cursors): check not registered yet',
     'C18': 'planned (DESIGN.md section 5): check not registered yet',
     'C19': 'planned (DESIGN.md section 5): check not registered yet',
